@@ -577,3 +577,9 @@ seed('c02-pdst-split-parent-not-relinked', 'C02', [(CPDST, "            motion->
 seed('c02-pdst-ancestor-duration-not-accumulated', 'C02', [(CPDST, "            ancestor = ancestor->parent_;\n            duration += ancestor->controlDuration_;", "            ancestor = ancestor->parent_;")], 'R02j')
 seed('c02-pdst-split-start-from-prev-start', 'C02', [(CPDST, "            motion->startState_ = newMotion->endState_;", "            motion->startState_ = newMotion->startState_;")], 'R02j')
 seed('c02-n-pdst-split-statements-reordered', 'C02', [(CPDST, "            motion->startState_ = newMotion->endState_;\n            motion->controlDuration_ -= duration;", "            motion->controlDuration_ -= duration;\n            motion->startState_ = newMotion->endState_;")], None)
+# R10k: k-centres postcondition
+GKC = 'src/ompl/datastructures/GreedyKCenters.h'
+seed('c10-kcenters-last-column-missing', 'C10', [(GKC, "            for (unsigned j = 0; j < data.size(); ++j)\n                dists(j, i) = distFun_(data[j], center);", "            for (unsigned j = 1; j < data.size(); ++j)\n                dists(j, i) = distFun_(data[j], center);")], 'R10k')
+seed('c10-kcenters-column-shifted', 'C10', [(GKC, "                    if ((dists(j, i - 1) = distFun_(data[j], center)) < minDist[j])\n                        minDist[j] = dists(j, i - 1);", "                    if ((dists(j, i) = distFun_(data[j], center)) < minDist[j])\n                        minDist[j] = dists(j, i);")], 'R10k')
+seed('c10-kcenters-duplicate-centres', 'C10', [(GKC, "                if (maxDist < std::numeric_limits<double>::epsilon())\n                    break;", "                if (maxDist < -1.0)\n                    break;")], 'R10k')
+seed('c10-n-kcenters-mindist-two-steps', 'C10', [(GKC, "                    if ((dists(j, i - 1) = distFun_(data[j], center)) < minDist[j])\n                        minDist[j] = dists(j, i - 1);", "                    dists(j, i - 1) = distFun_(data[j], center);\n                    if (dists(j, i - 1) < minDist[j])\n                        minDist[j] = dists(j, i - 1);")], None)
